@@ -26,6 +26,13 @@ Theorem C05_fixed_point : forall (F : realFieldType) (n m : nat)
   (py_sensor_model rm x P z z H Q).1.1 = x.
 Proof. exact py_update_fixed_point. Qed.
 
+Theorem C05_covariance_does_not_depend_on_the_reading : forall (F : realFieldType) (n m : nat)
+  (rm : 'cV[F]_m -> 'M[F]_m -> bool) (x x' : 'cV[F]_n) (P : 'M[F]_n) (z hx z' hx' : 'cV[F]_m) (H : 'M[F]_(m, n)) (Q : 'M[F]_m),
+  ~~ rm (z - hx) (invmx (innov_cov P H Q)) -> ~~ rm (z' - hx') (invmx (innov_cov P H Q)) ->
+  (py_sensor_model rm x P z hx H Q).1.2 = (py_sensor_model rm x' P z' hx' H Q).1.2 /\
+  (py_sensor_model rm x P z hx H Q).1.2 = update_cov P H Q.
+Proof. exact py_update_cov_independent. Qed.
+
 Theorem C05_posterior_valid : forall (F : realFieldType) (n m : nat)
   (rm : 'cV[F]_m -> 'M[F]_m -> bool) (x : 'cV[F]_n) (P : 'M[F]_n) (z hx : 'cV[F]_m) (H : 'M[F]_(m, n)) (Q : 'M[F]_m),
   valid P -> sym Q -> pd Q -> valid (py_sensor_model rm x P z hx H Q).1.2.
@@ -43,6 +50,7 @@ Theorem C05_positive_diagonal_noise_is_pd : forall (F : realFieldType) (m : nat)
 Proof. by move=> F m d h; split; [exact: diag_sym | exact: diag_pd]. Qed.
 
 Print Assumptions C05_update_spec.
+Print Assumptions C05_covariance_does_not_depend_on_the_reading.
 Print Assumptions C05_positive_diagonal_noise_is_pd.
 Print Assumptions C05_posterior_valid.
 Print Assumptions C05_posterior_le_prior.
